@@ -14,8 +14,8 @@ pub static C05: P05 = P05;
 pub struct P06;
 pub static C06: P06 = P06;
 
-pub const CONTENTS05: [&str; 6] = ["", "a", "bb cc dd", "e<br>f", "中中 g", "<table><tr><td>1</td><td>2</td></tr></table>"];
-pub const CONTENTS06: [&str; 5] = ["", "X", "X1 X2 X3", "X4<br>X5", "X6X7X8X9"];
+pub const CONTENTS05: [&str; 6] = ["", "a", "bb cc dd", "e<br>f", "中中 g", "<table><tr><td>alpha</td><td>b</td></tr></table>"];
+pub const CONTENTS06: [&str; 6] = ["", "X", "X1 X2 X3", "X4<br>X5", "X6X7X8X9", "X0"];
 
 #[derive(Debug, PartialEq)]
 pub enum Form {
@@ -117,14 +117,43 @@ pub fn check_borders(lines: &[&str], w: usize, nested: bool) -> Result<Form, (St
 
 /// Columns all of whose single-span cells are empty and that are covered by a colspan >= 2
 /// cell in some row: the footprint precondition of KF-C05-1 / KF-C06-1.
-fn zero_width_spanned_columns(t: &TableCase) -> usize {
+fn zero_width_spanned_columns(t: &TableCase, which: u8) -> usize {
+    // the renderer's size estimate of a cell, as far as the footprint needs it: the number of
+    // columns of its text (a <br> counts 1; nested tables are never spanning cells' only content here)
+    let sizes: Vec<usize> = t
+        .contents
+        .iter()
+        .map(|body| {
+            // C05 substitutes content classes for "Xn" placeholders
+            let body = if let Some(i) = body.strip_prefix(|c: char| c.is_ascii_lowercase()).and_then(|r| r.parse::<usize>().ok()).filter(|_| which == 5 && body.len() == 2) {
+                CONTENTS05.get(i).copied().unwrap_or("").to_string()
+            } else {
+                body.clone()
+            };
+            if body.contains("<table") {
+                return usize::MAX / 2;
+            }
+            let text: String = body.replace("<br>", " ");
+            crate::util::sw(&text)
+        })
+        .collect();
     let mut n = 0;
     for col in 0..t.cols {
-        // every single-span cell of the column is empty (vacuously so if it has none: then its
-        // size comes from spanning cells only, divided by their colspan and possibly 0)
+        // every single-span cell of the column is empty, and every spanning cell that covers
+        // it is too short to give each of its columns a share (size / colspan == 0) – only
+        // then does the unchanged allocator leave the column at width zero
         let singles_empty = t.cells.iter().filter(|c| c.2 == 1 && c.1 == col).all(|c| c.3.is_none());
-        let spanned = t.cells.iter().any(|c| c.2 >= 2 && c.1 <= col && col < c.1 + c.2);
-        if singles_empty && spanned {
+        let mut spanned = false;
+        let mut all_short = true;
+        for (ci, c) in t.cells.iter().enumerate() {
+            if c.2 >= 2 && c.1 <= col && col < c.1 + c.2 {
+                spanned = true;
+                if sizes.get(ci).copied().unwrap_or(0) >= c.2 {
+                    all_short = false;
+                }
+            }
+        }
+        if singles_empty && spanned && all_short {
             n += 1;
         }
     }
@@ -202,7 +231,7 @@ fn check05(t: &TableCase, c: &Case, cx: &mut Cx) {
             // KF-C05-1: a zero-width column inside a colspan – the spanning cell counts a
             // separator the other rows skip, so its row is wider than the rules.
             if kind == "lines have different display widths" {
-                let z = zero_width_spanned_columns(t);
+                let z = zero_width_spanned_columns(t, 5);
                 let g = grid(&lines);
                 let min = g.iter().map(|r| r.len()).min().unwrap_or(0);
                 let max = g.iter().map(|r| r.len()).max().unwrap_or(0);
@@ -395,7 +424,7 @@ fn check06(t: &TableCase, c: &Case, cx: &mut Cx) {
         }
         Ok(false) => cx.stat("stacked or empty"),
         Err((kind, msg)) => {
-            if kind == "column boundaries differ between rows" && zero_width_spanned_columns(t) > 0 {
+            if kind == "column boundaries differ between rows" && zero_width_spanned_columns(t, 6) > 0 {
                 cx.known("KF-C06-1", || json!({"case": serde_json::to_value(c).unwrap(), "html": t.html, "output": s, "detail": msg}));
                 return;
             }
@@ -452,7 +481,7 @@ impl Prop for P06 {
         "C06"
     }
     fn build(&self, tier: Tier) -> Box<dyn Scope> {
-        Box::new(S { which: 6, shapes: shapes(tier, 5), maxw: tier.pick(30, 60) })
+        Box::new(S { which: 6, shapes: shapes(tier, 6), maxw: tier.pick(30, 60) })
     }
     fn replay(&self, case: &Value, cx: &mut Cx) {
         let c: Case = serde_json::from_value(case.clone()).expect("C06 case");
